@@ -131,6 +131,7 @@ func c03PowNegative(c *core.Ctx) {
 func checkC03(c *core.Ctx) {
 	defer c03PowNegative(c)
 	defer sweepC03(c)
+	defer scalingCases(c, "Add", "Sub", "Mul", "Div", "ElMax", "ElMin", "Scale", "Pow")
 	defer sidefxCases(c, "Scale", "Pow", "Exp", "Log", "Sin", "Cos", "Tan", "Sinh", "Cosh", "Tanh", "Add", "Sub", "Mul", "Div", "ElMax", "ElMin")
 	defer selfCases(c, false, "elementwise", "compare")
 	defer soakC03(c)
@@ -356,6 +357,7 @@ func checkEquals(a, b *ref.T) core.Verdict {
 
 func checkC04(c *core.Ctx) {
 	defer sweepC04(c)
+	defer scalingCases(c, "Dot", "MatMul", "Transpose")
 	defer sidefxCases(c, "Dot", "MatMul", "Transpose")
 	defer selfCases(c, false, "linalg")
 	defer soakC04(c)
@@ -797,6 +799,7 @@ func c05SameOperand(c *core.Ctx) {
 
 func checkC05(c *core.Ctx) {
 	defer gridC05(c)
+	defer scalingCases(c, "SumAlong", "MaxAlong", "MinAlong", "AvgAlong", "VarAlong", "StdAlong", "MeanAlong", "global")
 	defer sidefxCases(c, "SumAlong", "MaxAlong", "MinAlong", "AvgAlong", "VarAlong", "StdAlong", "MeanAlong")
 	defer soakC05(c)
 	c05SameOperand(c)
